@@ -131,6 +131,14 @@ def optimizer_abstract_maps(t, this, task):
     return this
 
 
+def optimizer_user_maps(t, this, task):
+    """optimizer whose active time map and spatial map are user maps known only through their protocols"""
+    this = optimizer_abstract_maps(t, this, task)
+    from optimizer import AbstractTimeMap
+    this.fields['active_time_map_'].target = AbstractTimeMap()
+    return this
+
+
 def optimizer_default_maps(t, this, task):
     this = optimizer_setup(t, this, task)
     this.fields['active_spatial_map_'].target = this.fields['default_spatial_map_']
